@@ -411,6 +411,27 @@ class Walker:
                     vec, src, positions = g
                     st["vecs"][vec].append(("opt", src, positions))
                     continue
+                # `v.extend(xs.iter().rev().cloned())` / `v.extend_from_slice(xs)`: the iterator form of the push loop
+                if e["k"] == "MethodCall" and e["method"] in ("extend", "extend_from_slice") and e["recv"]["k"] == "Path" \
+                        and e["recv"]["path"] in st["vecs"] and e["args"]:
+                    tgt = e["recv"]["path"]
+                    if st["vecs"][tgt] is not None:
+                        n = e["args"][0]
+                        direction = "fwd"
+                        plain = True
+                        while n["k"] == "MethodCall":
+                            if n["method"] == "rev":
+                                direction = "rev" if direction == "fwd" else "fwd"
+                            elif n["method"] not in ("iter", "into_iter", "cloned", "copied", "clone", "to_vec", "as_slice"):
+                                plain = False
+                            n = n["recv"]
+                        while n["k"] == "Ref":
+                            n = n["e"]
+                        if plain and n["k"] == "Path" and not has_pop(e["args"][0]):
+                            st["vecs"][tgt].append((direction, norm(n)))
+                        else:
+                            st["vecs"][tgt] = None
+                    continue
                 # vec pushes outside loops
                 if e["k"] == "MethodCall" and e["method"] == "push" and e["recv"]["k"] == "Path" and e["recv"]["path"] in st["vecs"] and e["args"]:
                     if st["vecs"][e["recv"]["path"]] is not None:
@@ -608,6 +629,24 @@ def run(ctx, res):
     frame_pops = [bi for bi, t in f.calls() if (M.callee_name(t) or "").endswith("Vec::<T, A>::pop")
                   and "StackFrame" in ((t.get("argtys") or [""])[0])]
     pushes = [bi for bi, t in f.calls() if M.callee_name(t) == "env::Env::push_value"]
+
+    def restores_before_err(g):
+        """in helper g, no Err value is built on a path from entry that has not passed push_value."""
+        gp = [bi for bi, t in g.calls() if M.callee_name(t) == "env::Env::push_value"]
+        if not gp:
+            return False
+        r = D.reach_from(g, [0], avoid_blocks=gp)
+        for bi in r:
+            for st in g.blocks[bi]["stmts"]:
+                if st["s"] == "assign" and st["rv"]["k"] == "agg" and st["rv"].get("variant") == "Err":
+                    return False
+        return True
+    # a call to a local helper that pushes the value back before any error it returns counts as a push
+    for bi, t in f.calls():
+        n = M.callee_name(t)
+        g = P.funcs.get(n) if n else None
+        if g is not None and n != f.path and n != "env::Env::push_value" and restores_before_err(g):
+            pushes.append(bi)
     n_exit = 0
     for pb in pv:
         # the pop that is followed (on some path) by a pop of the frame vector: the function-return pop
